@@ -67,6 +67,20 @@ def relocs(U):
     return out
 
 
+def bounds(U):
+    """Corrupt.tla!C02Bounds: high halves and exact range boundaries, single fields, checksum recomputed (C02 only)"""
+    return sorted(([dict(x, csum="fix")] for x in U.get("c02_bounds", [])), key=lambda t: rkey(t[0]))
+
+
+def extra_recipes(U):
+    """Corrupt.tla!ExtraHashRecipes / ExtraSbRecipes: superblock recipes bound on C02's tool-built htree images
+    -> (image names, mandatory recipes, sampled recipes), checksum recomputed"""
+    x = U.get("c02_extras", {})
+    mand = sorted(([dict(r, csum="fix")] for r in x.get("hash", [])), key=lambda t: rkey(t[0]))
+    rest = sorted(([dict(r, csum="fix")] for r in x.get("sb", [])), key=lambda t: rkey(t[0]))
+    return sorted(x.get("images", [])), mand, rest
+
+
 def pairs(pairseeds):
     """one order per unordered pair of the seeds of Corrupt.tla!Pairs, checksum recomputed"""
     out = []
@@ -81,7 +95,9 @@ def pairs(pairseeds):
 # ------------------------------------------------------------------------------------------------
 INODE_F = {"mode": (0, 2), "size_lo": (4, 4), "dtime": (0x14, 4), "links": (0x1A, 2), "blocks_lo": (0x1C, 4), "flags": (0x20, 4),
            "generation": (0x64, 4), "file_acl": (0x68, 4), "size_hi": (0x6C, 4), "blocks_hi": (0x74, 2), "csum_lo": (0x7C, 2),
-           "extra_isize": (0x80, 2), "csum_hi": (0x82, 2)}
+           "extra_isize": (0x80, 2), "csum_hi": (0x82, 2),
+           # high parts in osd2 (linux2): Corrupt.tla!InodeHi
+           "file_acl_hi": (0x76, 2), "uid_hi": (0x78, 2), "gid_hi": (0x7A, 2)}
 IB = 0x28
 EXT_F = {"eh_magic": (0, 2), "eh_entries": (2, 2), "eh_max": (4, 2), "eh_depth": (6, 2)}
 FLAG_BITS = {"tog_extents": 0x80000, "tog_index": 0x1000, "tog_inline": 0x10000000, "tog_ea_inode": 0x200000, "tog_huge": 0x40000,
@@ -94,7 +110,11 @@ SB_F = {"s_inodes_count": (0, 4), "s_blocks_count": (4, 4), "s_free_blocks": (0x
         "s_reserved_gdt_blocks": (0xCE, 2), "s_journal_inum": (0xE0, 4), "s_last_orphan": (0xE8, 4), "s_desc_size": (0xFE, 2),
         "s_first_meta_bg": (0x104, 4), "s_min_extra_isize": (0x15C, 2), "s_mmp_block": (0x168, 4), "s_log_groups_per_flex": (0x174, 1),
         "s_checksum_type": (0x175, 1), "s_usr_quota_inum": (0x240, 4), "s_grp_quota_inum": (0x244, 4), "s_backup_bgs0": (0x24C, 4),
-        "s_checksum_seed": (0x270, 4), "s_orphan_file_inum": (0x280, 4), "s_checksum": (0x3FC, 4)}
+        "s_checksum_seed": (0x270, 4), "s_orphan_file_inum": (0x280, 4), "s_checksum": (0x3FC, 4),
+        # the fields that select the directory hash (Corrupt.tla!HashSelect)
+        "s_def_hash_version": (0xFC, 1), "s_flags": (0x160, 4)}
+HASH_VERSION_V = {"hv_legacy": 0, "hv_half_md4": 1, "hv_tea": 2, "hv_legacy_unsigned": 3, "hv_half_md4_unsigned": 4, "hv_tea_unsigned": 5,
+                  "hv_siphash": 6, "hv_beyond": 7, "max": 255}
 SB_BITS = {"s_feature_compat": {"tog_has_journal": 0x4, "tog_ext_attr": 0x8, "tog_resize_inode": 0x10, "tog_dir_index": 0x20,
                                 "tog_sparse_super2": 0x200, "tog_orphan_file": 0x1000, "tog_unknown": 0x40000000},
            "s_feature_incompat": {"tog_filetype": 0x2, "tog_recover": 0x4, "tog_meta_bg": 0x10, "tog_extents": 0x40, "tog_64bit": 0x80,
@@ -104,10 +124,17 @@ SB_BITS = {"s_feature_compat": {"tog_has_journal": 0x4, "tog_ext_attr": 0x8, "to
                                    "tog_dir_nlink": 0x20, "tog_extra_isize": 0x40, "tog_quota": 0x100, "tog_bigalloc": 0x200,
                                    "tog_metadata_csum": 0x400, "tog_project": 0x2000, "tog_orphan_present": 0x10000,
                                    "tog_unknown": 0x40000000},
-           "s_state": {"tog_error": 2, "tog_orphan": 4}}
+           "s_state": {"tog_error": 2, "tog_orphan": 4},
+           "s_flags": {"tog_signed_hash": 1, "tog_unsigned_hash": 2, "tog_both_hash": 3, "tog_test_fs": 4, "tog_unknown": 0x40000000}}
 GD_F = {"bg_block_bitmap": (0, 4), "bg_inode_bitmap": (4, 4), "bg_inode_table": (8, 4), "bg_free_blocks": (0xC, 2),
         "bg_free_inodes": (0xE, 2), "bg_used_dirs": (0x10, 2), "bg_flags": (0x12, 2), "bg_bb_csum": (0x18, 2), "bg_ib_csum": (0x1A, 2),
         "bg_itable_unused": (0x1C, 2), "bg_checksum": (0x1E, 2)}
+# the second half of a 64-byte descriptor (64bit only): Corrupt.tla!GroupDescHi
+GD_HI_F = {"bg_block_bitmap_hi": (0x20, 4), "bg_inode_bitmap_hi": (0x24, 4), "bg_inode_table_hi": (0x28, 4), "bg_free_blocks_hi": (0x2C, 2),
+           "bg_free_inodes_hi": (0x2E, 2), "bg_used_dirs_hi": (0x30, 2), "bg_itable_unused_hi": (0x32, 2), "bg_bb_csum_hi": (0x38, 2),
+           "bg_ib_csum_hi": (0x3A, 2)}
+BLK_BOUND_V = ("last_valid", "first_invalid", "first_data", "below_first_data")
+INO_BOUND_V = ("inodes_count", "inodes_count_p1", "first_ino_m1")
 GD_BITS = {"tog_inode_uninit": 1, "tog_block_uninit": 2, "tog_zeroed": 4, "tog_unknown": 0x80}
 JSB_F = {"j_magic": (0, 4), "j_blocktype": (4, 4), "j_blocksize": (0xC, 4), "j_maxlen": (0x10, 4), "j_first": (0x14, 4),
          "j_sequence": (0x18, 4), "j_start": (0x1C, 4), "j_errno": (0x20, 4), "j_feature_incompat": (0x28, 4), "j_feature_ro": (0x2C, 4),
@@ -217,6 +244,7 @@ class Base:
         """value classes of a block-number field owned by inode `owner`"""
         if vc == "zero": return 0
         if vc == "plus1": return old + 1
+        if vc in BLK_BOUND_V: return self.blkbound(vc)
         if vc == "beyond": return self.geo["blocks"] + 7
         if vc == "alias_meta": return self.P["gd"][0]["it"] + 1
         if vc == "alias_other":
@@ -231,6 +259,25 @@ class Base:
                 b = self.some_block_of(owner, k)
                 if b and b != old: return b
             raise NoBind("no second own block")
+        raise NoBind(vc)
+
+    def blkbound(self, vc):
+        """exact boundaries of the range test first_data_block <= b < blocks_count (Corrupt.tla!BlkBoundV)"""
+        geo = self.geo
+        if geo["blocks"] >= 1 << 32: raise NoBind("block count beyond 32 bits")
+        if vc == "last_valid": return geo["blocks"] - 1
+        if vc == "first_invalid": return geo["blocks"]
+        if vc == "first_data": return geo["first"]
+        if vc == "below_first_data":
+            if geo["first"] == 0: raise NoBind("first_data_block = 0")
+            return geo["first"] - 1
+        raise NoBind(vc)
+
+    def inobound(self, vc):
+        """exact boundaries of the range test first_ino <= n <= inodes_count (Corrupt.tla!InoBoundV)"""
+        if vc == "inodes_count": return self.geo["inodes"]
+        if vc == "inodes_count_p1": return self.geo["inodes"] + 1
+        if vc == "first_ino_m1": return self.geo["first_ino"] - 1
         raise NoBind(vc)
 
     def unread_group(self, kind):
@@ -399,6 +446,7 @@ class Base:
             elif vc == "self": new = dino
             elif vc == "beyond": new = self.geo["inodes"] + 3
             elif vc == "reserved_ino": new = 5
+            elif vc in INO_BOUND_V: new = self.inobound(vc)
             else: raise NoBind(vc)
             if new is None or new == ino: raise NoBind("same inode")
             return [(o + p, struct.pack("<I", new))]
@@ -474,6 +522,7 @@ class Base:
                 off, w = XE_F[field[3:]]
                 if field == "ie_value_inum" and vc == "alias_other":
                     return setint(m + 4, off, w, new=R.get("file_small", 12)), fx
+                if vc in INO_BOUND_V: return setint(m + 4, off, w, new=self.inobound(vc)), fx
                 return setint(m + 4, off, w), fx
             extent = bool(self.rd(buf, o + 0x20, 4) & 0x80000)
             if field.startswith("eh_") or field.startswith("ee"):
@@ -566,6 +615,7 @@ class Base:
             off, w = XE_F[field[3:]]
             if field == "xe_value_inum" and vc == "alias_other":
                 return setint(o + 32, off, w, new=R.get("file_small", 12)), ("xblk", blk)
+            if vc in INO_BOUND_V: return setint(o + 32, off, w, new=self.inobound(vc)), ("xblk", blk)
             return setint(o + 32, off, w), ("xblk", blk)
 
         if role == "orphan_block":
@@ -577,6 +627,7 @@ class Base:
             if field == "ob_csum":
                 if not self.meta_csum: raise NoBind("no checksum")
                 return setint(o, bs - 4, 4), fx
+            if vc in INO_BOUND_V: return setint(o, 0, 4, new=self.inobound(vc)), fx
             new = {"one": 1, "free_ino": self.free_ino, "used_ino": R.get("file_small"), "beyond": geo["inodes"] + 3}[vc]
             return setint(o, 0, 4, new=new), fx
 
@@ -585,6 +636,10 @@ class Base:
             if field in SB_BITS: return setint(o, SB_F[field][0], SB_F[field][1], bits=SB_BITS[field][vc]) if vc.startswith("tog_") else setint(o, *SB_F[field]), ("sb", None)
             off, w = SB_F[field]
             if field in ("s_checksum", "s_checksum_type", "s_checksum_seed") and not self.meta_csum: raise NoBind("no checksum")
+            if field == "s_def_hash_version": return setint(o, off, w, new=HASH_VERSION_V[vc]), ("sb", None)
+            if vc in INO_BOUND_V or vc in BLK_BOUND_V:
+                if self.rd(buf, o + off, w) == 0: raise NoBind("feature absent")
+                return setint(o, off, w, new=self.inobound(vc) if vc in INO_BOUND_V else self.blkbound(vc)), ("sb", None)
             if vc == "alias_other": return setint(o, off, w, new=R.get("file_small")), ("sb", None)
             if vc == "beyond": return setint(o, off, w, new=geo["inodes"] + 3 if "inum" in field or "orphan" in field else geo["blocks"] + 7), ("sb", None)
             if vc == "free_ino": return setint(o, off, w, new=self.free_ino), ("sb", None)
@@ -638,7 +693,17 @@ class Base:
                 if role not in ("gd_first", "gd_small") and g == 0: raise NoBind("single group")
                 if role == "gd_mid" and g == geo["gdc"] - 1: raise NoBind("two groups")
             o = loc["gd%d" % g]; fx = ("gd", g)
+            if field in GD_HI_F:
+                if not self.has64 or self.dsize < 64: raise NoBind("32-byte descriptors")
+                if field in ("bg_bb_csum_hi", "bg_ib_csum_hi") and not self.meta_csum: raise NoBind("no checksum")
+                if field == "bg_itable_unused_hi" and not (self.meta_csum or self.gdt_csum): raise NoBind("no uninit_bg")
+                return setint(o, *GD_HI_F[field]), fx
             off, w = GD_F[field]
+            if vc in ("grp_max", "grp_max_p1"):
+                # the largest count a group can hold (objects per group) and the first impossible one
+                m = geo["cpg"] if field == "bg_free_blocks" else geo["ipg"]
+                if field == "bg_itable_unused" and not (self.meta_csum or self.gdt_csum): raise NoBind("no uninit_bg")
+                return setint(o, off, w, new=m + (1 if vc == "grp_max_p1" else 0)), fx
             if field in ("bg_bb_csum", "bg_ib_csum") and not self.meta_csum: raise NoBind("no checksum")
             if field == "bg_checksum" and not (self.meta_csum or self.gdt_csum): raise NoBind("no checksum")
             if field in ("bg_itable_unused",) and not (self.meta_csum or self.gdt_csum): raise NoBind("no uninit_bg")
@@ -652,6 +717,7 @@ class Base:
                     if geo["gdc"] < 2: raise NoBind("single group")
                     new = self.P["gd"][og][key]
                 elif vc == "alias_itable": new = self.P["gd"][g]["it"] + 1
+                elif vc in BLK_BOUND_V: new = self.blkbound(vc)
                 elif vc == "beyond": new = geo["blocks"] + 7
                 elif vc == "zero": new = 0
                 else: new = old + 1
